@@ -983,7 +983,7 @@ struct equal_n_fn<planar_pixel_iterator<IC, CS>, planar_pixel_iterator<IC, CS>>
     bool operator()(planar_pixel_iterator<IC, CS> const i1, std::ptrdiff_t n, planar_pixel_iterator<IC, CS> const i2) const
     {
         // FIXME: ptrdiff_t vs size_t
-        constexpr std::ptrdiff_t byte_size = n * sizeof(typename std::iterator_traits<IC>::value_type);
+        std::ptrdiff_t const byte_size = n * sizeof(typename std::iterator_traits<IC>::value_type);
         for (std::ptrdiff_t i = 0; i < mp11::mp_size<CS>::value; ++i)
         {
             if (memcmp(dynamic_at_c(i1, i), dynamic_at_c(i2, i), byte_size) != 0)
